@@ -1,4 +1,5 @@
 import EpdVerif.AuditCmd
 import EpdVerif.Props.C17
+import EpdVerif.Props.C17Sticky
 import EpdVerif.Props.Panels
 #audit_namespace EpdVerif.Props.C17
